@@ -417,15 +417,30 @@ def check_config(cfg, ops, tmp, ls):
             i = op[1] % len(cfg)
             if i in created and factories[i] is not None:
                 streams = [(h, h.stream) for h, s in live if h in created[i].handlers]
+                closed_plain = []
                 for h, _old in streams:
                     if getattr(h, "_zcv_closed", False):
-                        h._zcv_ignore = True     # reopening a handler that was closed: not specified
+                        if type(h).__name__ == "FileHandler" and not getattr(h, "_zcv_ignore", False) and h.stream is None:
+                            # a plain file handler that was closed is not alive any more: a reopen
+                            # is not to act on it (rule of the pinned tree; for the rotating
+                            # handlers, whose reopen is a roll-over, this stays unspecified)
+                            closed_plain.append((h, os.path.exists(h.baseFilename)))
+                        else:
+                            h._zcv_ignore = True     # reopening a rotating handler that was closed: not specified
                 try:
                     factories[i].reopen()
                 except Exception as e:  # noqa
                     out.append(("reopen-raises:%s" % type(e).__name__, str(e)[:200]))
                     continue
+                for h, existed in closed_plain:
+                    counters_closed_reopen[0] += 1
+                    if h.stream is not None or (not existed and os.path.exists(h.baseFilename)):
+                        out.append(("factory.reopen-acts-on-a-closed-handler:pinned-closed-plain-handler",
+                                    "closed %s has stream %r after reopen()" % (type(h).__name__, h.stream)))
+                        h._zcv_ignore = True
                 for h, old in streams:
+                    if any(h is c for c, _e in closed_plain):
+                        continue
                     spec = next(s for hh, s in live if hh is h)
                     _check_reopened(out, h, old, spec, "factory.reopen")
         elif kind == "reopenFiles":
@@ -536,6 +551,9 @@ def make_record_copy(rec):
     r.thread = rec.thread
     r.process = rec.process
     return r
+
+
+counters_closed_reopen = [0]
 
 
 def _check_reopened(out, h, old, spec, what):
@@ -676,6 +694,10 @@ def gen_ops(rng, n, retry=False):
     if retry:
         k = rng.randrange(4)
         return [("call", k), ("mkdir", 0), ("call", k), ("again", k), ("reopenFiles", 0), ("closeFiles", 0)]
+    if rng.random() < 0.1:
+        # everything closed, then one logger asked to reopen its handlers
+        k = rng.randrange(4)
+        return [("call", k), ("closeFiles", 0)] + [("call", k)] * rng.randint(0, 1) + [("reopen", k), ("reopenFiles", 0)]
     ops = [("call", rng.randrange(4))]
     for _ in range(rng.randint(0, 5)):
         k = rng.choice(["call", "again", "reopen", "reopenFiles", "closeFiles", "drop", "call", "startup", "closeOne"])
@@ -915,7 +937,9 @@ def run_shard(spec):
                 retry = False
         ops = gen_ops(rng, len(cfg), retry)
         res.evaluations += 1
+        counters_closed_reopen[0] = 0
         status, fl = run_case(cfg, ops)
+        counters["reopen-of-a-closed-plain-handler"] += counters_closed_reopen[0]
         counters["random:" + status] += 1
         kinds = [o[0] for o in ops]
         for kk in set(kinds):
@@ -956,7 +980,7 @@ def config_text_safe(cfg):
 
 def check_coverage(tier, c):
     problems = []
-    for k in ("random:accepted", "random:reject", "with-format:accepted", "op:drop", "op:closeFiles", "op:reopenFiles"):
+    for k in ("random:accepted", "random:reject", "with-format:accepted", "op:drop", "op:closeFiles", "op:reopenFiles", "reopen-of-a-closed-plain-handler"):
         if c.get(k, 0) < 30:
             problems.append("class %s has only %d cases" % (k, c.get(k, 0)))
     return problems
